@@ -23,7 +23,7 @@
      <<"copy", s, h>>     copy-construct h from the thread's own live handle s
      <<"malloc", n>>      allocate n accounted bytes on the shared device
      <<"free", n>>        release n accounted bytes                                        *)
-EXTENDS Integers, Sequences, FiniteSets, TLC
+EXTENDS Integers, Sequences, FiniteSets, TLC, Json
 
 CONSTANTS Threads,        \* thread ids
           Prog,           \* Prog[t]: sequence of operations of thread t
@@ -132,5 +132,5 @@ CounterExact      == Quiescent => bytes = NetBytes
 
 View == <<pc, ring, lock, alive, destroyed, touched, sawEmpty, bytes, tmp>>
 \* schedule generation: one line per complete schedule
-EmitSchedule == Quiescent => PrintT(<<"B", sched, [d |-> destroyed, b |-> bytes, a |-> alive, u |-> touched]>>)
+EmitSchedule == Quiescent => PrintT(<<"B", ToJson([sched |-> sched, d |-> destroyed, b |-> bytes, a |-> alive, u |-> touched, ring |-> Cardinality(ring), net |-> NetBytes])>>)
 =============================================================================
